@@ -26,6 +26,20 @@ claimed = {
          "Int arithmetic; printed text modelled as segments (literal text + decimal rendering of an int term); hermes2go's -lines dispatch (goroutines) not encoded.", "§6 C17"),
  "C04": ("transformWeatherData, replaceMissingValues and LoadYear executed symbolically on 1-3 years of T<=3 days with every value (and the sentinel) symbolic: mm->cm with correction, PAR = half radiation, wind floor on every day, gap = mean of the calendar-adjacent days also across the year change, present values untouched, year lookup copies exactly the requested year or returns an error.",
          "Real arithmetic; year length shrunk (routines parametric in MaxYearDays); the three file readers' text handling and the discarded LoadYear error at the call sites are outside this check (see DESIGN).", "§6 C04"),
+ "C03": ("Reduced to the one shared mutable object of a session: FilePool.Get executed symbolically from arbitrary cache states returns the content of exactly the requested path, keeps the cache invariant, touches the cache only while the ghost mutex flag is set and releases it. Race freedom on this object follows by the lockset argument; everything quantified over goroutine schedules is outside.",
+         "os.ReadFile stubbed as a function of the path; sync.Mutex as ghost flag; no interleavings are explored (not encodable with this technique).", "A3 C03"),
+ "C05": ("Regions of the day loop lifted verbatim: daily record iff interval day, yearly record iff day-of-year equals OUTDAY (with counter reset), exactly one crop record per finished cycle over k<=4 sub-steps, and the day on which the yearly record falls against the configured date in every simulated year (open known finding).",
+         "WriteLine stubbed and counted; Water/PhytoOut/Nitro stubbed in the sub-step loop (interpreter replay); field counts per column kind and whole-run record counts are outside.", "A3 C05"),
+ "C08": ("Potential ET cap/non-negativity for ET methods 1,2,5 (crop branch), activity factors, and the uptake distribution/redistribution of Evatra (lifted regions) for n<=3 layers with share abstraction: uptake >= 0, none below roots or groundwater, sum <= potential transpiration, actual <= potential ET, stress ratios in [0,1]; daily uptake <= plant-available water over k sub-steps.",
+         "Real arithmetic; quotient shares abstracted by share variables with linear lemmas plus defining equations; methods 3/4 and the bare-soil branch outside.", "A3 C08"),
+ "C10": ("One-step induction of the fertiliser, irrigation and tillage cursors (lifted from Nitro/Run), the same-day shift loops and the fertiliser table split (lifted from Input/dueng) for k<=4 events with symbolic dates and amounts.",
+         "Event-log writers stubbed; schedule file readers and pre-start drop outside.", "A3 C10"),
+ "C11": ("Reduced to termination of the fertiliser-prediction day-length search: for every latitude in [49.2,65] N day 150 is longer than 14 h and day 172 longer than 16 h (uninterpreted sin/cos/asin with natively evaluated lemma points), the real loops at 45/50/55/60 degrees; non-termination below ~48.6 degrees is an open known finding. Isolation of concurrent runs is outside (schedules).",
+         "Trigonometric functions uninterpreted with monotonicity and lemma points; concrete-latitude runs are interpreter runs of the real closure.", "A3 C11"),
+ "C16": ("Automatic irrigation and automatic sowing blocks of the day loop lifted verbatim: irrigation only after sowing, within the stage window, at most the daily maximum; sowing inside the window, after the previous harvest, forced on the window's last day (inductive invariant).",
+         "Real/Int arithmetic; automatic harvest, automatic N and the crop switch are outside.", "A3 C16"),
+ "C18": ("Assignment part of ReadCropParamYml lifted; for every overridable base, stage and partition parameter: state after file+override equals state after reading the edited parameter set, or equals the no-override state (rejected as a whole).",
+         "yaml.Unmarshal replaced by an arbitrary parameter set with 2 organs x 2 stages; 'results' reduced to the parameter state handed to the crop model.", "A3 C18"),
 }
 props = [json.loads(l) for l in open(os.path.join(ROOT, 'properties.jsonl'))]
 reasons = {}
